@@ -102,6 +102,25 @@ def r19_2(ctx):
         others = [bb for bb, tt in f.calls() if tt["callee"].rsplit("::", 1)[-1] in ("as_ref2", "as_number", "as_object", "as_value_slice", "as_str", "as_bool")]
         ok = all(f.dominates(first[0], bb) for bb in others)
     ctx.ob("R19.2", "Value::eq:type-tags-first", ok, f.loc(), "the type tags of both operands are compared before any payload")
+    # payloads are compared as values of their kind (Number, str, slices, objects), never as raw words: an integer
+    # comparison in Value::eq compares type tags or lengths.  (The bits of 0.0 and -0.0 differ, the numbers are equal;
+    # equal bits of two NaN payloads would make NaN == NaN.)
+    raw = []
+    for b, i, s_ in f.assigns():
+        rv = s_["rv"]
+        if rv["k"] == "binop" and rv["op"] in ("Eq", "Ne"):
+            ls = [op_local(rv["a"]), op_local(rv["b"])]
+            if any(l is None for l in ls) or not all(f.locals[l]["ty"] in ("u64", "i64", "u32", "usize", "u8", "u128", "f64") for l in ls):
+                continue
+            tagged = []
+            for l in ls:
+                sl, leaves = backward_slice(f, [l], through_calls=False)
+                tagged.append(any(lf[0] == "call" and callee_is(lf[2], "get_type", "len", "discriminant_value") for lf in leaves))
+            if not all(tagged):
+                raw.append(s_.get("ln"))
+    ctx.ob("R19.2", "Value::eq:no-raw-word-comparison", not raw, f.loc(raw[0] if raw else None),
+           "integer comparisons in Value::eq are between type tags / lengths only" if not raw else
+           "Value::eq compares two machine words that are neither type tags nor lengths: payloads compared by their bits disagree with the comparison of the values (0.0 == -0.0, NaN != NaN)")
     for acc in ("as_number", "as_value_slice", "as_object"):
         cs = [(b, t) for b, t in f.calls() if callee_is(t, acc)]
         pp = set()
